@@ -6,7 +6,7 @@ data, so the same call can be re-issued in the isolated golden process.
 """
 import numpy as np
 
-TYPES = ("O", "E", "bits", "eye")
+TYPES = ("O", "E", "bits", "eye", "arr")
 
 
 class Lib:
@@ -103,18 +103,21 @@ class _:
         return L.dv.DAC(i["bits"], a["bias"], a["Vout"], a["shape"], _bw(L, a["BWf"]), **kw)
 
 
-@entry("LASER", flags=("stoch",))
+@entry("LASER", needs=("arr",), flags=("stoch",))
 class _:
     gen = staticmethod(lambda r: {"n": r.choice([64, 256, 1000]), "p": r.choice([0, 10, -3]),
                                   "lw": r.choice([None, 1e6, 10e6]), "rin": r.choice([None, -150, -140]),
-                                  "dff": r.choice([None, 0.1, -0.2])})
-    run = staticmethod(lambda L, a, i: L.dv.LASER(np.arange(a["n"]) * L.gv.dt, a["p"], a["lw"], a["rin"],
-                                                  None if a["dff"] is None else a["dff"] * L.gv.fs))
+                                  "dff": r.choice([None, 0.1, -0.2]), "tpool": r.random() < 0.5})
+
+    @staticmethod
+    def run(L, a, i):
+        t = i["arr"] if a.get("tpool") and i["arr"].ndim == 1 and np.isrealobj(i["arr"]) else np.arange(a["n"]) * L.gv.dt
+        return L.dv.LASER(t, a["p"], a["lw"], a["rin"], None if a["dff"] is None else a["dff"] * L.gv.fs)
 
 
-@entry("PM", needs=("O",))
+@entry("PM", needs=("O", "arr"))
 class _:
-    gen = staticmethod(lambda r: {"drive": r.choice(["float", "int", "arr", "es"]), "v": r.choice([2.5, 1, -3.0]),
+    gen = staticmethod(lambda r: {"drive": r.choice(["float", "int", "arr", "es", "poolarr"]), "v": r.choice([2.5, 1, -3.0]),
                                   "Vpi": r.choice([5.0, 3.3]), "dseed": r.getrandbits(31)})
 
     @staticmethod
@@ -124,6 +127,8 @@ class _:
             d = float(a["v"])
         elif a["drive"] == "int":
             d = int(a["v"])
+        elif a["drive"] == "poolarr" and i["arr"].ndim == 1 and len(i["arr"]) == len(x) and np.isrealobj(i["arr"]):
+            d = i["arr"]                       # the caller's own drive waveform, shared with other users
         else:
             d = np.random.RandomState(a["dseed"]).uniform(-5, 5, len(x))
             if a["drive"] == "es":
@@ -131,9 +136,9 @@ class _:
         return L.dv.PM(x, d, a["Vpi"])
 
 
-@entry("MZM", needs=("O", "E"))
+@entry("MZM", needs=("O", "E", "arr"))
 class _:
-    gen = staticmethod(lambda r: {"drive": r.choice(["float", "arr", "es", "pool"]), "v": r.choice([2.5, 0.0, -1.0]),
+    gen = staticmethod(lambda r: {"drive": r.choice(["float", "arr", "es", "pool", "poolarr"]), "v": r.choice([2.5, 0.0, -1.0]),
                                   "bias": r.choice([0.0, 2.5]), "Vpi": r.choice([5.0, 3.3]), "loss": r.choice([0.0, 3.0]),
                                   "ER": r.choice([26.0, 10.0, 40.0]), "pol": r.choice(["x", "y"]),
                                   "BWf": r.choice([None, None, 0.3] + ABS_BW[2:]), "dseed": r.getrandbits(31)})
@@ -145,6 +150,8 @@ class _:
             d = a["v"]
         elif a["drive"] == "pool":
             d = i["E"]
+        elif a["drive"] == "poolarr" and i["arr"].ndim == 1 and len(i["arr"]) == len(x) and np.isrealobj(i["arr"]):
+            d = i["arr"]
         else:
             d = np.random.RandomState(a["dseed"]).uniform(-5, 5, len(x))
             if a["drive"] == "es":
@@ -505,6 +512,17 @@ class _:
 class _:
     gen = staticmethod(lambda r: {"on": r.choice("OE"), "yscale": r.choice(["dbm", "linear"]), "n": r.choice([None, 64])})
     run = staticmethod(lambda L, a, i: _sigobj(i, a).psd("-", n=a["n"], yscale=a["yscale"]))
+
+
+@entry("m.gt", needs=("E", "arr"))
+class _:
+    gen = staticmethod(lambda r: {"cmp": r.choice([">", "<"]), "thr": r.choice(["scalar", "poolarr"])})
+
+    @staticmethod
+    def run(L, a, i):
+        x = i["E"]
+        thr = i["arr"] if a["thr"] == "poolarr" and i["arr"].ndim == 1 and len(i["arr"]) == len(x) else 0.5
+        return (x > thr) if a["cmp"] == ">" else (x < thr)
 
 
 # ------------------------------- failed calls (documented errors) ---------------------------------------
